@@ -196,9 +196,9 @@ pub fn case(rng: &mut Rng) -> String {
     let n = p.indim();
     let mut out = String::from("C10 ");
     enc::poly(&mut out, &p);
-    let c: Array1<f64> = match rng.below(4) {
-        0 => Array1::zeros(n),
-        1 => {
+    let c: Array1<f64> = match rng.below(8) {
+        0 | 1 => Array1::zeros(n),
+        2 | 3 => {
             let mut c = Array1::zeros(n);
             let j = rng.below(n);
             c[j] = if rng.chance(1, 2) { 1.0 } else { -1.0 };
@@ -265,7 +265,12 @@ pub fn cleanup_case(rng: &mut Rng) -> String {
         2 | 6 => p.remove_redundant_row_constraints(),
         3 => Ok(p.clone().normalize()),
         4 => Ok(p.remove_zero_rows()),
-        _ => Ok(p.remove_rows(idxs.clone())),
+        // the indices arrive through different iterator types (exact and inexact size hints, empty selections)
+        _ => Ok(match idxs.len() % 3 {
+            0 => p.remove_rows(idxs.clone()),
+            1 => p.remove_rows((0..p.n_constraints()).filter(|i| idxs.contains(i))),
+            _ => p.remove_rows(idxs.iter().copied().filter(|_| true)),
+        }),
     }));
     let log = verif_hooks::stop();
     match r {
